@@ -710,10 +710,11 @@ func c04RawReplay(c *fw.Ctx, raw []byte) {
 
 func init() {
 	fw.Register(&fw.Monitor{
-		ID:     "C04",
-		Title:  "binary decoders are total, allocation-bounded and canonical on arbitrary bytes",
-		Rule:   "valid encodings from the reference writer (small geometries, collections to depth 3, all modes/orders) mutated by truncation (sampled, and every prefix), 1-2 bit flips biased to header fields, splices of two encodings, forgery of exactly one count field located through the reference writer's field map to {limit, limit+1, 2^31-1, 2^31, 2^32-1, random}, random bytes behind plausible headers; large geometries whose counts stay within generous limits (big first ring/line/polygon followed by many parts, one count raised to its limit, optionally truncated) so that an allocation proportional to a PRODUCT of in-limit counts shows; 8 settings of wkbcommon.MaxGeometryElements. Monitors: panic/process death (journal), WF of accepted geometries, decode->encode->decode equality, agreement with the reference reader on accepted bytes, ErrGeometryTooLarge{Level,N,Limit} exactly when the reference reader (same limits) meets an over-limit count first, allocation monitor (TotalAlloc delta <= 64*len+128*sum(limits)+65536, re-measured on excess), Read-call bound 4*len+16. Inputs whose count at a level WITHOUT a limit is not backed by input are not driven (the property's carve-out). distinct_nontrivial = distinct (format, config, field type, level, depth) forgeries + accepted shape signatures",
-		Assume: []string{"runtime.ReadMemStats TotalAlloc delta in a single-goroutine child is exactly what the decode allocated", "reference reader in harness/ref decides which count field is met first", "children run under ulimit -v 4000000 so an unrejected forged count kills the child, which the journal attributes to the input"},
+		MemDeathIsViolation: true,
+		ID:                  "C04",
+		Title:               "binary decoders are total, allocation-bounded and canonical on arbitrary bytes",
+		Rule:                "valid encodings from the reference writer (small geometries, collections to depth 3, all modes/orders) mutated by truncation (sampled, and every prefix), 1-2 bit flips biased to header fields, splices of two encodings, forgery of exactly one count field located through the reference writer's field map to {limit, limit+1, 2^31-1, 2^31, 2^32-1, random}, random bytes behind plausible headers; large geometries whose counts stay within generous limits (big first ring/line/polygon followed by many parts, one count raised to its limit, optionally truncated) so that an allocation proportional to a PRODUCT of in-limit counts shows; 8 settings of wkbcommon.MaxGeometryElements. Monitors: panic/process death (journal), WF of accepted geometries, decode->encode->decode equality, agreement with the reference reader on accepted bytes, ErrGeometryTooLarge{Level,N,Limit} exactly when the reference reader (same limits) meets an over-limit count first, allocation monitor (TotalAlloc delta <= 64*len+128*sum(limits)+65536, re-measured on excess), Read-call bound 4*len+16. Inputs whose count at a level WITHOUT a limit is not backed by input are not driven (the property's carve-out). distinct_nontrivial = distinct (format, config, field type, level, depth) forgeries + accepted shape signatures",
+		Assume:              []string{"runtime.ReadMemStats TotalAlloc delta in a single-goroutine child is exactly what the decode allocated", "reference reader in harness/ref decides which count field is met first", "children run under ulimit -v 4000000 so an unrejected forged count kills the child, which the journal attributes to the input"},
 		Classes: []fw.Class{
 			{Name: "mutations", Quick: 200000, Thorough: 12000000, Run: c04Mutations, RawReplay: c04RawReplay},
 			{Name: "every-prefix", Quick: 3000, Thorough: 100000, Run: c04Truncations},
